@@ -976,6 +976,60 @@ def c13(rec):
                     out.append(V("integrate_mixture_var:lazy", st="declined_lazy"))
         except Exception as e:  # noqa
             out.append(V("integrate_mixture:" + type(e).__name__, st="declined_error", det=str(e)[:100]))
+    # moment matching: the mixture over the integer inputs is replaced by ONE Gaussian that must
+    # preserve total mass, mean and covariance (component moments are TLC's exact values)
+    if batch and not keep and all(f["ok"] for f in rec["full"]):
+        try:
+            from collections import OrderedDict as _OD2
+            from funsor.interpretations import moment_matching
+            lw = np.log(1.0 + np.arange(int(np.prod(bsizes)), dtype=np.float64)).reshape(tuple(bsizes))
+            wt = Tensor(lw, _OD2((n, fbuild.dom_of(d)) for n, d in batch))
+            bnames = frozenset(n for n, _ in batch)
+            with moment_matching:
+                mm = (wt + g).reduce(fops.logaddexp, bnames)
+            zs = np.array([np.exp(_cv(f["logz"])) for f in rec["full"]]) * np.exp(lw.reshape(-1))
+            Z = zs.sum()
+            p = zs / Z
+            means = np.array([[vals.scalar_to_float(s) for s in f["mean"]] for f in rec["full"]])
+            covs = np.array([[[vals.scalar_to_float(x) for x in row] for row in f["cov"]] for f in rec["full"]])
+            mean = (p[:, None] * means).sum(0)
+            second = (p[:, None, None] * (covs + means[:, :, None] * means[:, None, :])).sum(0)
+            cov = second - mean[:, None] * mean[None, :]
+            if mm.inputs.keys() & bnames:
+                out.append(V("moment_matching:kept_integer_input", st="declined_lazy"))
+            else:
+                mass = mm.reduce(fops.logaddexp, rv)
+                got_mass = float(np.asarray(mass.data)) if isinstance(mass, (Tensor, Number)) else None
+                gterm = [t_ for t_ in getattr(mm, "terms", (mm,)) if type(t_).__name__ == "Gaussian"]
+                if got_mass is None or len(gterm) != 1:
+                    out.append(V("moment_matching:unexpected_form", st="declined_lazy", det=type(mm).__name__))
+                elif not vals.close(got_mass, float(np.log(Z))):
+                    out.append(V("moment_matching_mass", det={"got": got_mass, "want": float(np.log(Z))}))
+                else:
+                    G = gterm[0]
+                    # moments of the matched Gaussian in ITS input order; reorder to the leaf's
+                    order, off = [], {}
+                    pos = 0
+                    for n, d in rec["leaf"]["ins"]:
+                        if d["dt"] == 0:
+                            size = int(np.prod(d["sh"])) if d["sh"] else 1
+                            off[n] = list(range(pos, pos + size))
+                            pos += size
+                    for n, d in G.inputs.items():
+                        if d.dtype == "real":
+                            order.extend(off[n])
+                    P = G.prec_sqrt @ np.swapaxes(G.prec_sqrt, -1, -2)
+                    C = np.linalg.inv(P)
+                    m_ = C @ (G.prec_sqrt @ G.white_vec[..., None])[..., 0]
+                    want_mean, want_cov = mean[order], cov[np.ix_(order, order)]
+                    if not vals.close(m_, want_mean):
+                        out.append(V("moment_matching_mean", det={"got": m_.tolist(), "want": want_mean.tolist()}))
+                    elif not vals.close(C, want_cov):
+                        out.append(V("moment_matching_covariance", det={"got": C.tolist(), "want": want_cov.tolist()}))
+                    else:
+                        out.append(V(None, st="agree"))
+        except Exception as e:  # noqa
+            out.append(V("moment_matching:" + type(e).__name__, st="declined_error", det=str(e)[:100]))
     # the same Gaussian built from the other parametrisations (exact integer P, eta from TLC)
     if not keep and all(f["ok"] for f in rec["full"]):
         from funsor.gaussian import Gaussian
